@@ -100,7 +100,9 @@ _Bool mon_on; bstate_t mon_prev_state; uint32_t mon_version0; _Bool chain0[POOL]
 _Bool mon_bad_slot_store, mon_bad_state_step, mon_bad_item_store, mon_bad_order, mon_lock_dropped;
 _Bool mon_next_store_v0[POOL];
 _Bool mon_unlinked_v0[POOL];         /* item p (linked at the start) was found unlinked while the bucket version was still the initial one */
-_Bool mon_unlinked[POOL]; uint32_t mon_unlink_ver[POOL];     /* item p has left the chain; bucket version at the store that unlinked it */       /* item p had its `next` written while the bucket version was still the initial one */
+_Bool mon_unlinked[POOL]; uint32_t mon_unlink_ver[POOL];
+/* publication of NEW extension items (not linked at the start): the store that makes item p reachable from the bucket */
+_Bool mon_published[POOL], mon_bad_publish; unsigned mon_publications; extension_item* mon_prev_head; extension_item* mon_next_shadow[POOL];     /* item p has left the chain; bucket version at the store that unlinked it */       /* item p had its `next` written while the bucket version was still the initial one */
 unsigned mon_state_stores, mon_unlocks, mon_slot_stores, mon_head_stores; int mon_last_state_order;
 bucket_t g_other0; bucket_t* g_other;
 #define VERSION_MASK ((uint32_t)((((uint64_t)1) << (32 - version_shift)) - 1))
@@ -119,6 +121,15 @@ static void mon_unlink_check(bucket_t* B) {       /* after a store to head / nex
   for (int p = 0; p < POOL; ++p) if (chain0[p] && !mon_unlinked[p] && !in_chain(B, POOL_ITEM_C(p))) {
     mon_unlinked[p] = 1; mon_unlink_ver[p] = BS_version(B->state);
     if (BS_version(B->state) == mon_version0) mon_unlinked_v0[p] = 1;
+  }
+}
+/* item p becomes reachable through a store that replaced the pointer value `replaced`: at that moment its key, value and next are final
+   (next == the pointer that was replaced, so no older item is cut off, not even for an instant), the store is release-or-stronger;
+   afterwards no field of it is written by this operation */
+static void mon_publish(int p, extension_item* replaced, int o) {
+  for (int q = 0; q < POOL; ++q) if (q == p && !chain0[q] && !mon_published[q]) {
+    mon_published[q] = 1; mon_publications++;
+    if (POOL_ITEM_C(q)->next != replaced || !XV_IS_RELEASE(o)) mon_bad_publish = 1;
   }
 }
 static void mon_store(void* addr, uint64_t v, int o) {
@@ -147,6 +158,7 @@ static void mon_store(void* addr, uint64_t v, int o) {
     mon_head_stores++; if (!BS_is_locked(B->state)) mon_bad_slot_store = 1;
     int p = pool_index(B->head); _Bool was_linked = 0; for (int q = 0; q < POOL; ++q) if (q == p && chain0[q]) was_linked = 1;
     if (B->head != 0 && !was_linked && !XV_IS_RELEASE(o)) mon_bad_order = 1;
+    mon_publish(p, mon_prev_head, o); mon_prev_head = B->head;
     mon_unlink_check(B);
     return; }
   for (int p = 0; p < POOL; ++p) if (chain0[p]) {
@@ -157,6 +169,18 @@ static void mon_store(void* addr, uint64_t v, int o) {
     if (addr == (void*)&x->key || addr == (void*)&x->value || addr == (void*)&x->next) {
       if (!mon_unlinked[p]) { if (addr != (void*)&x->next) mon_bad_item_store = 1; else { if (BS_version(B->state) == mon_version0) mon_next_store_v0[p] = 1; mon_unlink_check(B); } }
       else if (BS_version(B->state) == mon_unlink_ver[p]) mon_bad_item_store = 1;
+      if (addr == (void*)&x->next) {      /* a reachable item's next may also publish a new item */
+        if (!mon_unlinked[p]) mon_publish(pool_index(x->next), mon_next_shadow[p], o);
+        mon_next_shadow[p] = x->next;
+      }
+      return;
+    }
+  }
+  for (int p = 0; p < POOL; ++p) if (!chain0[p]) {
+    extension_item* x = POOL_ITEM_C(p);
+    if (addr == (void*)&x->key || addr == (void*)&x->value || addr == (void*)&x->next) {
+      if (mon_published[p]) mon_bad_publish = 1;          /* written after it became visible to the lock-free reader */
+      if (addr == (void*)&x->next) mon_next_shadow[p] = x->next;
       return;
     }
   }
@@ -191,7 +215,9 @@ static void mon_load(void* addr, uint64_t v, int o) {
 }
 /* grow monitor: the exchange on resize_lock, the store that releases the bucket, the loads of resize_lock */
 _Bool gi_on; unsigned gi_xchg_count, gi_bucket_stores; uint64_t gi_xchg_old, gi_xchg_clock, gi_bucket_store_clock, gi_rl_load_clock, gi_rl_load_val; bstate_t gi_bucket_stored; int gi_rl_load_order;
+static void mon_store(void* addr, uint64_t v, int o);
 static void mon_rmw(void* addr, uint64_t oldv, uint64_t newv, int o) {
+  if (mon_on && addr != (void*)&g_map.resize_lock) mon_store(addr, newv, o);      /* exchange / fetch_* on a bucket cell or item field: a store for the writer monitor */
   if (gi_on && addr == (void*)&g_map.resize_lock) { gi_xchg_count++; gi_xchg_old = oldv; gi_xchg_clock = xv_clock; }
 }
 static void mon_cas(void* addr, uint64_t e, uint64_t d, _Bool ok, int o) {
